@@ -437,7 +437,14 @@ pub fn castle_family(out: &mut Vec<Crafted>) {
                             let bc = if (asq as usize + blocker) % 2 == 0 { me } else { opp };
                             p.board[bs as usize] = Some((bc, Kind::N));
                         }
+                        // the same placement with the attacker's side to move: its legal moves include
+                        // captures of the home rooks (rights must be lost) and checks through the path
+                        let mut q = p.clone();
+                        q.turn = opp;
                         try_push(out, "castle-attackers", p, vec![]);
+                        if blocker <= 1 {
+                            try_push(out, "castle-attacker-to-move", q, vec![]);
+                        }
                     }
                 }
             }
